@@ -492,8 +492,14 @@ class Representation(ObjectWithFields):
         timing = self._timing
         if timing.mode != 'live':
             if segment_num is None:
-                st = segment_time + (self.segment_duration >> 2)
-                segment_num = int(st // self.segment_duration) + self.start_number
+                # find the segment whose start is nearest to the requested
+                # time, as segment durations can vary
+                idx = 0
+                for seg in self.segments[1:]:
+                    if segment_time < seg.start + (seg.duration >> 1):
+                        break
+                    idx += 1
+                segment_num = idx + self.start_number
             mod_segment = 1 + segment_num - self.start_number
             return SegmentNumberAndTime(segment_num, mod_segment, 0)
 
